@@ -30,6 +30,7 @@ type CompCase struct {
 	Prefill     int      `json:"prefill,omitempty"`
 	Stable      int      `json:"stable,omitempty"` // hashmap: how many of the prefilled keys are never touched again
 	PreDelete   int      `json:"predelete,omitempty"`
+	KeyKind     int      `json:"keykind,omitempty"` // sketch: 0 int, 1 string, 2 float64 (signed zeros), 3 struct
 	Tasks       [][]COp  `json:"tasks"`
 	Seeds       []uint64 `json:"seeds,omitempty"`
 }
